@@ -176,6 +176,34 @@ class Ctx:
                   wall=round(time.time() - t, 1))
         return st
 
+    # ---- M (unbounded): an inductive invariant discharged by Apalache: Init => Inv, and Inv /\ Next => Inv'.
+    # A counterexample is a broken specification theorem (infrastructure error, like a failing TLC model check); a timeout or a
+    # missing tool is only noted - the bounded TLC check of the same invariant stands on its own.
+    def inductive(self, module, init, ind_init, nxt, inv, tag=None, timeout=600):
+        tag = tag or os.path.splitext(module)[0]
+        import shutil as _sh
+        if _sh.which("apalache-mc") is None:
+            self.note("M-ind", tag=tag, result="apalache-mc not installed")
+            return None
+        res = {}
+        for name, ini, length in (("base", init, 0), ("step", ind_init, 1)):
+            out = self.path("apalache-%s-%s" % (tag, name))
+            cmd = ["apalache-mc", "check", "--init=" + ini, "--next=" + nxt, "--inv=" + inv, "--length=%d" % length,
+                   "--out-dir=" + out, os.path.join(TLA, module)]
+            t = time.time()
+            try:
+                r = subprocess.run(cmd, cwd=self.work, stdout=subprocess.PIPE, stderr=subprocess.STDOUT, text=True, timeout=timeout)
+            except subprocess.TimeoutExpired:
+                self.note("M-ind", tag=tag, part=name, result="timeout after %ds" % timeout)
+                return None
+            ok = "EXITCODE: OK" in r.stdout
+            res[name] = ok
+            self.note("M-ind", tag=tag, part=name, invariant=inv, ok=ok, wall=round(time.time() - t, 1))
+            shutil.rmtree(out, ignore_errors=True)
+            if not ok and "Checker has found an error" in r.stdout:
+                raise InfraError("inductive invariant %s of %s fails in the %s case\n%s" % (inv, module, name, r.stdout[-2000:]))
+        return res
+
     # ---- A: spec -> code replay.  TLC prints CASE lines, the harness replays them.
     def replay(self, module, cfg, harness_bin, harness_args=(), tag=None, timeout=1500, workers=None, xmx="8g",
                simulate=None, depth=None, env=None, tlc_extra=None, xss="32m"):
